@@ -1,5 +1,6 @@
 SPECIFICATION Spec
 CONSTANTS
+  WideSizes = {255, 256, 1023, 1024, 1025, 2000, 4097}
   Atoms <- AtomsFull
   AtomsMid <- AtomsMid4
   AtomsDeep <- AtomsDeep2
